@@ -61,6 +61,6 @@ def main(what, props, n):
             sys.stdout.flush()
     finally:
         shutil.rmtree(tmp, ignore_errors=True)
-    os.makedirs(os.path.join(runner.VERIF, 'evidence'), exist_ok=True)
-    runner.jdump({'selftest': 'determinism', 'report': report}, os.path.join(runner.VERIF, 'evidence', 'selftest_determinism.json'))
+    os.makedirs(os.path.join(runner.VERIF, 'selftest'), exist_ok=True)
+    runner.jdump({'selftest': 'determinism', 'report': report}, os.path.join(runner.VERIF, 'selftest', 'determinism.json'))
     return 0 if bad == 0 else 2
